@@ -127,7 +127,8 @@ def chained_enablement(check, j):
 
 def run(check):
     check.rule = ("a failing (error/alt/crash/drop/deploy failure) or disabled step placed at every position of 6 shapes (enumerated), the two-hop "
-                  "stop-before-start construction, plus generated programs; delays between failure notification and dependants via random plans; "
+                  "stop-before-start construction, a loop item ending in another declared output with a step needing the loop's success, a step enabled by the enabling result "
+                  "of a disabled step, plus generated programs; delays between failure notification and dependants via random plans; "
                   "oracle: set of plugin executions logged at the plugin boundary is a subset of the reference's may-run set, disabled steps expose "
                   "disabled.output through !ordisabled; non-trivial = at least one step must not run; distinct = (shape@position:kind, executed set)")
     check.assumptions = ["one-hop stop_if (stop source also feeds the target's input) is schedule dependent and not asserted"]
